@@ -6,9 +6,11 @@
 //
 //	form "toml", "init": text of a whole configuration file (already passed through the real
 //	    readConfigFile by the overlay test in package main) -> toml.Decode -> cfg.InitTable
-//	form "cmd": an admin command -> imperatives.Apply
+//	form "cmd": a sequence of admin commands -> imperatives.Apply, one after the other
 //
-// on a real table.Table created, like main() does, from the decoded configuration.
+// on a real table.Table created, like main() does, from the decoded configuration.  One load
+// may add several entries (several sections / blacklist lines / commands): every entry the load
+// added is read back, in table order.
 // It records only; the expected entry is computed by TLC from spec/Config.tla and compared
 // by the check.
 package conf
@@ -38,21 +40,22 @@ import (
 )
 
 type inCase struct {
-	Id   int    `json:"id"`
-	Kind string `json:"kind"`
-	Form string `json:"form"`
-	Key  string `json:"key"`
-	Text string `json:"text"`
+	Id   int      `json:"id"`
+	Kind string   `json:"kind"` // "gnet" if the load creates a grafanaNet route (chunking only)
+	Form string   `json:"form"`
+	Text string   `json:"text"` // forms toml, init
+	Cmds []string `json:"cmds"` // form cmd
 }
 
 type outRec struct {
-	Id       int                    `json:"id"`
-	Form     string                 `json:"form"`
-	Ok       bool                   `json:"ok"`
-	Err      string                 `json:"err"`
-	Instance string                 `json:"instance"`
-	SpoolDir string                 `json:"spool_dir"`
-	Entry    map[string]interface{} `json:"entry"`
+	Id       int                      `json:"id"`
+	Form     string                   `json:"form"`
+	Ok       bool                     `json:"ok"`
+	Err      string                   `json:"err"`
+	Instance string                   `json:"instance"`
+	SpoolDir string                   `json:"spool_dir"`
+	Added    map[string]int           `json:"added"`   // how many entries of each kind the load added
+	Entries  []map[string]interface{} `json:"entries"` // every added entry, in table order
 }
 
 // durations are reported in microseconds; a value that is not a whole number of
@@ -254,6 +257,7 @@ func child(t *testing.T, inPath, outPath, hdrPath, progPath string) {
 		// of never-touched memory with the defaults; without GC it stays untouched
 		debug.SetGCPercent(-1)
 	}
+	t0 := time.Now()
 	lines, err := hx.ReadLines(inPath)
 	if err != nil {
 		t.Fatal(err)
@@ -289,7 +293,7 @@ func child(t *testing.T, inPath, outPath, hdrPath, progPath string) {
 			t.Fatal(err)
 		}
 		prog.Emit(map[string]interface{}{"id": c.Id, "form": c.Form})
-		rec := outRec{Id: c.Id, Form: c.Form, Entry: map[string]interface{}{}}
+		rec := outRec{Id: c.Id, Form: c.Form, Added: map[string]int{}, Entries: []map[string]interface{}{}}
 		before := count(tab)
 		switch c.Form {
 		case "toml", "init":
@@ -306,38 +310,45 @@ func child(t *testing.T, inPath, outPath, hdrPath, progPath string) {
 			}
 			rec.Ok = true
 		case "cmd":
-			if err := imperatives.Apply(tab, c.Text); err != nil {
-				rec.Err = "Apply: " + err.Error()
-				break
-			}
 			rec.Ok = true
+			for i, cmd := range c.Cmds {
+				if err := imperatives.Apply(tab, cmd); err != nil {
+					rec.Err = fmt.Sprintf("Apply #%d: %s", i+1, err.Error())
+					rec.Ok = false
+					break
+				}
+			}
 		default:
 			t.Fatalf("unknown form %q", c.Form)
 		}
 		snap := tab.Snapshot()
 		after := counts{len(snap.Blacklist), len(snap.Rewriters), len(snap.Aggregators), len(snap.Routes)}
-		e := rec.Entry
-		e["added_black"] = after.black - before.black
-		e["added_rewriter"] = after.rew - before.rew
-		e["added_agg"] = after.agg - before.agg
-		e["added_route"] = after.routes - before.routes
+		rec.Added["added_black"] = after.black - before.black
+		rec.Added["added_rewriter"] = after.rew - before.rew
+		rec.Added["added_agg"] = after.agg - before.agg
+		rec.Added["added_route"] = after.routes - before.routes
 
-		// read the new entries back (the last of each list) and take them out again
-		if after.black > before.black {
-			matcherFields(*snap.Blacklist[after.black-1], "", e)
+		// read the new entries back (the tail of each list, in order); they are taken out again below
+		for i := before.black; i < after.black; i++ {
+			e := map[string]interface{}{}
+			matcherFields(*snap.Blacklist[i], "", e)
+			rec.Entries = append(rec.Entries, e)
 		}
-		if after.rew > before.rew {
-			rw := snap.Rewriters[after.rew-1]
-			e["old"], e["new"], e["not"], e["max"] = rw.Old, rw.New, rw.Not, rw.Max
+		for i := before.rew; i < after.rew; i++ {
+			rw := snap.Rewriters[i]
+			rec.Entries = append(rec.Entries, map[string]interface{}{"old": rw.Old, "new": rw.New, "not": rw.Not, "max": rw.Max})
 		}
-		if after.agg > before.agg {
-			a := snap.Aggregators[after.agg-1]
+		for i := before.agg; i < after.agg; i++ {
+			a := snap.Aggregators[i]
+			e := map[string]interface{}{}
 			matcherFields(a.Matcher, "", e)
 			e["fun"], e["format"], e["cache"], e["dropRaw"] = a.Fun, a.OutFmt, a.Cache, a.DropRaw
 			e["interval"], e["wait"] = a.Interval, a.Wait
+			rec.Entries = append(rec.Entries, e)
 		}
-		if after.routes > before.routes {
-			rs := snap.Routes[after.routes-1]
+		for i := before.routes; i < after.routes; i++ {
+			rs := snap.Routes[i]
+			e := map[string]interface{}{}
 			e["type"], e["key"], e["ndests"] = rs.Type, rs.Key, len(rs.Dests)
 			matcherFields(rs.Matcher, "", e)
 			r := tab.GetRoute(rs.Key)
@@ -349,14 +360,15 @@ func child(t *testing.T, inPath, outPath, hdrPath, progPath string) {
 				e["flushMaxWait_us"], e["timeout_us"], e["errBackoffMin_us"] = us(g.Cfg.FlushMaxWait), us(g.Cfg.Timeout), us(g.Cfg.ErrBackoffMin)
 				e["errBackoffFactor"] = strconv.FormatFloat(g.Cfg.ErrBackoffFactor, 'g', -1, 64)
 			}
-			for i := range rs.Dests {
-				d, err := r.GetDestination(i)
+			for j := range rs.Dests {
+				d, err := r.GetDestination(j)
 				if err != nil {
-					e[fmt.Sprintf("d%d.error", i+1)] = err.Error()
+					e[fmt.Sprintf("d%d.error", j+1)] = err.Error()
 					continue
 				}
-				destFields(d, fmt.Sprintf("d%d.", i+1), e)
+				destFields(d, fmt.Sprintf("d%d.", j+1), e)
 			}
+			rec.Entries = append(rec.Entries, e)
 		}
 		olog.Emit(rec)
 
@@ -385,5 +397,6 @@ func child(t *testing.T, inPath, outPath, hdrPath, progPath string) {
 			}
 		}
 	}
-	prog.Emit(map[string]interface{}{"done": len(lines), "goroutines": runtime.NumGoroutine(), "stuck_routes": stuck})
+	prog.Emit(map[string]interface{}{"done": len(lines), "goroutines": runtime.NumGoroutine(), "stuck_routes": stuck,
+		"elapsed_ms": time.Since(t0).Milliseconds()})
 }
